@@ -217,7 +217,7 @@ def run_case(case):
                 break
             # (2) proper rotation: signed volume of the first non-degenerate quadruple keeps its sign
             if n >= 4:
-                q = _quad(x64[k])
+                q = _quad(x64[k], 64 * oracle.EPS32 * (xmax + 1))
                 if q is not None:
                     v0 = np.linalg.det(x64[k][q[1:]] - x64[k][q[0]])
                     v1 = np.linalg.det(y[k][q[1:]] - y[k][q[0]])
@@ -240,12 +240,14 @@ def run_case(case):
     return {"viol": viol, "labels": labels, "nontrivial": bool(nontrivial)}
 
 
-def _quad(x):
+def _quad(x, res=0.0):
+    """four consecutive atoms spanning a volume whose sign cannot be changed by coordinate rounding of size res: the height of
+    the tetrahedron (volume / base area ~ |v| / s^2) must exceed the rounding of the input and of the superposed output"""
     n = len(x)
     for i in range(0, min(n - 3, 8)):
         v = np.linalg.det(x[i + 1:i + 4] - x[i])
         s = np.abs(x[i + 1:i + 4] - x[i]).max()
-        if s > 0 and abs(v) > 1e-3 * s ** 3:
+        if s > 0 and abs(v) > 1e-3 * s ** 3 and abs(v) > 8 * res * s ** 2:
             return [i, i + 1, i + 2, i + 3]
     return None
 
